@@ -402,3 +402,61 @@ func canonCrash(kind, eng, point, out string) string {
 		return f[2]
 	}
 }
+
+// failedFetch (case kind FF): a snapshot transfer whose copy command FAILS midway while the process
+// lives on. The copy is made to fail by a "cp" found first on PATH that runs the real cp under a
+// 64 KB file size limit (EFBIG / SIGXFSZ on the first bigger file), so some files arrive whole, one
+// is cut short, the rest is missing, and RunFileSync returns its error. Then, with the normal cp:
+// is the half directory refused, does the next PrepareSnapshot fetch again, does RestoreFromSnapshot
+// end with the source's content. Output: first=<res> half=<refused|ACCEPTED|absent> second=<res> restore=<exact|WRONG|res>.
+func failedFetch(eng string, fillKB int, seed int64) string {
+	p, err := openPair(eng, [2]int{0, 0})
+	if err != nil {
+		return "openerr"
+	}
+	defer p.close()
+	a, b := p.st[0], p.st[1]
+	childFill(a, fillKB, seed)
+	if eng != "mem" {
+		a.reopen() // sst files as well as a WAL in the checkpoint
+		childFill(a, fillKB/2+64, seed+5)
+	}
+	want := a.valueID()
+	if a.backupStart(7, 100) != "ok" || a.backupFinish() != "ok" {
+		return "setup-failed"
+	}
+	wrap, err := os.MkdirTemp("", "verif-ckpt-cpwrap-")
+	if err != nil {
+		return "mkerr"
+	}
+	defer os.RemoveAll(wrap)
+	realCp, err := exec.LookPath("cp")
+	if err != nil {
+		return "nocp"
+	}
+	script := "#!/bin/sh\nulimit -f 128\nexec " + realCp + " \"$@\"\n"
+	if err := ioutil.WriteFile(path.Join(wrap, "cp"), []byte(script), 0755); err != nil {
+		return "mkerr"
+	}
+	oldPath := os.Getenv("PATH")
+	os.Setenv("PATH", wrap+":"+oldPath)
+	first := b.prepare(7, 100)
+	os.Setenv("PATH", oldPath)
+	half := "absent"
+	if _, err := os.Stat(path.Join(b.db().GetBackupDir(), ckName(7, 100))); err == nil {
+		half = "refused"
+		if b.localOK(7, 100) == "1" {
+			half = "ACCEPTED"
+		}
+	}
+	second := b.prepare(7, 100)
+	rs := b.restore(7, 100)
+	if rs == "ok" {
+		if b.valueID() == want {
+			rs = "exact"
+		} else {
+			rs = "WRONG-content"
+		}
+	}
+	return fmt.Sprintf("first=%s half=%s second=%s restore=%s", first, half, second, rs)
+}
